@@ -319,7 +319,7 @@ func (a *Analyzer) analyze(fn *ssa.Function, depth int) *Result {
 			continue
 		}
 		if n := len(ret.Results); n > 0 && a.NonNilErr != nil {
-			last := ret.Results[n-1]
+			last := retOperand(ret, n-1)
 			if types.Identical(last.Type(), types.Universe.Lookup("error").Type()) && a.NonNilErr(last, b) {
 				continue
 			}
@@ -344,4 +344,30 @@ func (a *Analyzer) analyze(fn *ssa.Function, depth int) *Result {
 		}
 	}
 	return res
+}
+
+// retOperand looks through the result spill go/ssa introduces for functions with defers.
+func retOperand(ret *ssa.Return, i int) ssa.Value {
+	v := ret.Results[i]
+	ld, ok := v.(*ssa.UnOp)
+	if !ok || ld.Op != token.MUL {
+		return v
+	}
+	al, ok := ld.X.(*ssa.Alloc)
+	if !ok {
+		return v
+	}
+	b := ret.Block()
+	for steps := 0; steps < 8; steps++ {
+		for j := len(b.Instrs) - 1; j >= 0; j-- {
+			if st, ok := b.Instrs[j].(*ssa.Store); ok && st.Addr == ssa.Value(al) {
+				return st.Val
+			}
+		}
+		if len(b.Preds) != 1 {
+			return v
+		}
+		b = b.Preds[0]
+	}
+	return v
 }
